@@ -307,6 +307,11 @@ def oracle_download(c, f, steps, out, good, lines=None):
 
 def oracle_upload(c, f, steps, out, good):
     bad = []
+    if any(t == "prelude" for _, _, t in steps):
+        # a transfer that ended inside a section came first: judged is the complete upload after it (from its FILE READY on)
+        last = max((i for i, l in enumerate(out) if l.startswith("cb fileready")), default=0)
+        out = out[last:]
+        steps = [x for x in steps if x[2] != "prelude"]
     sent = [a for k, a, t in steps if t == "segment"]
     segs = [l for l in out if l.startswith("cb segment")]
     fins = [int(l.split()[2]) for l in out if l.startswith("cb finished")]
@@ -346,6 +351,15 @@ def gen(rng, quick):
         if sum(sh) <= 3000:
             rep = {rng.range(1, len(sh)): rng.range(1, 2)}
             out.append(("dl.repeat.%d" % i, "dl", True, c0, f, download_script(c0, f, rep), 1))
+    # (1a) a complete upload AFTER a transfer that ended inside a section (upload aborted by the master, upload that ran into the
+    #      supervision timeout, download abandoned while a section was being transmitted): offsets start at 0 again
+    fa = File([600, 230, 7], seed=77)
+    pre_abort = [(k, a, "prelude") for k, a, _ in upload_script(c0, fa, abort_at=1)]
+    pre_tmo = [(k, a, "prelude") for k, a, _ in upload_script(c0, fa)[:4]] + [("adv", c0.timeout + 1, "prelude"), ("run", 1, "prelude")]
+    pre_dl = [("rx", m_select(c0, fa), "prelude"), ("rx", m_callfile(c0, fa), "prelude"), ("rx", m_callsec(c0, fa, 1), "prelude"), ("run", 2, "prelude"),
+              ("adv", c0.timeout + 1, "prelude"), ("run", 1, "prelude")]
+    for name, pre in (("abort", pre_abort), ("timeout", pre_tmo), ("download", pre_dl)):
+        out.append(("ul.after." + name, "ul", True, c0, fa, pre + upload_script(c0, fa), 1))
     # (1b) the same procedure in (virtual) real time: a slave task every 100 ms, a master that takes up to just under the
     #      supervision timeout to answer -- sections that take longer than the timeout to transmit must still arrive
     for i, (sh, pace, think) in enumerate([([8192, 7081, 100], 100, 0), ([3, 300, 5], 0, c0.timeout - 1), ([7316, 7317], 100, 2000), ([500, 20000], 150, 10)] +
